@@ -74,9 +74,10 @@ if GLIB:
 GETPASS_PROMPTS = []          # what the framework hands to the password function (getpass writes it to the console)
 CLS = {ExceptionSignal: 0, RenderScreenSignal: 1, CloseScreenSignal: 2, InputReceivedSignal: 3, InputReadySignal: 4}
 # the application's own signal classes (ScreenSem.CLS_CUSTOM c = 5 + c)
-CUSTOM = [type("Custom%d" % c, (AbstractSignal,), {}) for c in range(8)]
-for _c, _k in enumerate(CUSTOM):
+CUSTOM = {c: type("Custom%d" % c, (AbstractSignal,), {}) for c in range(8)}
+for _c, _k in CUSTOM.items():
     CLS[_k] = 5 + _c
+CUSTOM[99] = ExceptionSignal          # class number 99: the application connects its own callback to ExceptionSignal itself
 HEIGHT = 6
 STEP_LIMIT = 600
 
